@@ -73,6 +73,7 @@ func safeDeserialize(s *simdjson.Serializer, blob []byte, dst *simdjson.ParsedJs
 func (c *Ctx) randomTape(r *Rng, big int) (*simdjson.ParsedJson, []byte) {
 	var doc []byte
 	nd := false
+	numeric := false
 	switch {
 	case big == 1: // beyond both 64 KiB flush blocks: > 70000 tape words, many distinct strings
 		var sb strings.Builder
@@ -102,6 +103,22 @@ func (c *Ctx) randomTape(r *Rng, big int) (*simdjson.ParsedJson, []byte) {
 			sb.WriteString("\n")
 		}
 		doc = []byte(sb.String())
+	case r.Chance(1, 5):
+		// arrays (also as object members) of numbers at the int64/uint64/float64 edges: every
+		// number kind — 'u' entries included — gets deleted, replaced and round-tripped
+		numeric = true
+		mk := func() string {
+			var el []string
+			for j := 2 + r.Intn(6); j > 0; j-- {
+				el = append(el, numBoundary[r.Intn(len(numBoundary))])
+			}
+			return "[" + strings.Join(el, ",") + "]"
+		}
+		if r.Bool() {
+			doc = []byte(mk())
+		} else {
+			doc = []byte(`{"a":` + mk() + `,"b":[` + mk() + `,1],"c":18446744073709551615}`)
+		}
 	default:
 		o := smallOpts(r)
 		o.NoDupKey = r.Bool()
@@ -112,10 +129,10 @@ func (c *Ctx) randomTape(r *Rng, big int) (*simdjson.ParsedJson, []byte) {
 		return nil, doc
 	}
 	// a few in-place edits
-	if r.Chance(1, 2) {
+	if r.Chance(1, 2) || numeric {
 		h := &history{doc: doc, pj: out.PJ}
 		for k := 0; k < 1+r.Intn(4); k++ {
-			op := c.pickEdit(r, h, r.Bool())
+			op := c.pickEdit(r, h, r.Bool() || numeric)
 			if op == nil {
 				break
 			}
